@@ -79,6 +79,9 @@ impl Check for C12 {
         let mut rng = Rng::for_case(seed, "c12", case);
         let mut lib = small_lib(&mut rng, tier);
         let keys: Vec<String> = lib.keys().cloned().collect();
+        // hook H2: the invariant walker sees every graph the handlers build (patch graphs included)
+        crate::hooks::install_graph_hook();
+        crate::hooks::graph_hook_reset();
         lsp::reset_log();
         mon::drain_thread_panics();
         let mut s = Server::start_mem(&lib, "");
@@ -238,6 +241,11 @@ impl Check for C12 {
                 );
                 break;
             }
+        }
+        let (h2_graphs, h2_viol) = crate::hooks::graph_hook_take();
+        rep.count("h2_graphs_walked", h2_graphs);
+        for (c, d) in h2_viol.into_iter().take(2) {
+            rep.violate(&format!("forest-{}", c), "h2", d, json!({"case": case}));
         }
         let evs = lsp::events_since(0);
         rep.count("h1_events", evs.len() as u64);
